@@ -17,6 +17,7 @@ up to the depth bound.  On every transition the invariants of the statement are 
 from __future__ import annotations
 
 import io
+import json
 import math
 
 import numpy as np
@@ -241,12 +242,17 @@ def _make_transform(ev):
     raise KeyError(nm)
 
 
+OP_TIMEOUT = 20.0  # wall-clock horizon of one operation inside a history (operations on <= 12 nodes take well under a millisecond)
+
+
 def _fields(op):
     """Public configuration of a transform instance (identity of list members, bytes of arrays)."""
     if op is None:
         return None
     out = {}
     for k, v in sorted(vars(op).items()):
+        if k.startswith("_"):
+            continue  # private attributes may hold caches; only the public configuration is the caller's
         if isinstance(v, np.ndarray):
             out[k] = (str(v.dtype), v.shape, v.tobytes())
         elif isinstance(v, list):
@@ -258,7 +264,7 @@ def _fields(op):
     return out
 
 
-def bind(ev, t, B):
+def bind(ev, t, B, pool=None):
     """-> (callable producing the result, list of input trees, list of mutable argument snapshots, op instance)."""
     from swcgeom import core as C
 
@@ -295,11 +301,22 @@ def bind(ev, t, B):
     if nm == "Transforms":
         from swcgeom.transforms import Transforms
 
-        a, b = _make_transform(ev[1]), _make_transform(ev[2])
+        a, b = _pooled(ev[1], pool), _pooled(ev[2], pool)
         op = Transforms(a, b)
         return (lambda: op(t)), [t], op
-    op = _make_transform(ev)
+    op = _pooled(ev, pool)
     return (lambda: op(t)), [t], op
+
+
+def _pooled(ev, pool):
+    """One transform OBJECT per event description and case: the same instance is applied again at every depth of the search
+    (to other trees and to its own earlier results), which is how transform objects are used in pipelines."""
+    if pool is None:
+        return _make_transform(ev)
+    k = json.dumps(ev, sort_keys=True, default=str)
+    if k not in pool:
+        pool[k] = _make_transform(ev)
+    return pool[k]
 
 
 def _empty_result_expected(ev, t):
@@ -338,6 +355,7 @@ def check_case(case, R):
         return
     first = evs0[ev0_idx]
     applied = {"n": 0}
+    pool = {}
 
     def enabled(s):
         if s.depth == 0:
@@ -359,10 +377,13 @@ def check_case(case, R):
         name = ev[0]
         args_before = kernel.dg(ev)
         try:
-            fn, inputs, op = bind(ev, t, B)
+            fn, inputs, op = bind(ev, t, B, pool)
             snaps = [build.snapshot(x) for x in inputs]
             f_before = _fields(op)
-            out = fn()
+            out = kernel.call_with_timeout(fn, OP_TIMEOUT)
+        except kernel.CallTimeout:
+            R.fail(f"hang:{name}", f"history={hist}: the operation did not return within {OP_TIMEOUT}s", f"hang:{name}", history=hist)
+            return None
         except (kernel.CaseTimeout, KeyboardInterrupt):
             raise
         except BaseException as e:  # noqa: BLE001
@@ -411,7 +432,7 @@ def check_case(case, R):
             R.check(why == "", "shares-storage", lambda: f"history={hist}: {why}", f"shares-storage:{sig}", history=hist)
         # (4) same instance, same state, same answer
         try:
-            out2 = fn()
+            out2 = kernel.call_with_timeout(fn, OP_TIMEOUT)
             same = build.canon_tree(out2) == build.canon_tree(out)
             R.check(same, "not-repeatable", lambda: f"history={hist}: second application differs", f"not-repeatable:{sig}", history=hist)
             R.check(out2 is not out, "same-object-returned", lambda: f"history={hist}", f"same-object-returned:{sig}", history=hist)
